@@ -24,7 +24,7 @@ ASSUMPTIONS = [
 ]
 
 # ---------------------------------------------------------------- alphabets
-KEYS = [b"a", b"b", b"\x00\xff\n", b"k" * 255, b"K" * 256, b"c"]
+KEYS = [b"a", b"b", b"\x00\xff\n", b"k" * 255, b"K" * 256, b"c", b""]   # the empty key is an ordinary key
 VALS = [b"", b"x", b"hello", b"\x00" * 9000, bytes(range(256)) * 256 + b"!" * 0, b"v" * 65535, b"w" * 65536, b"z" * 70000]
 VALS[4] = (bytes(range(256)) * 40)[:9001]
 VALS.append(b"q" * 5000)   # two of these straddle the 8 kB io buffer: a torn record reaches the disk
@@ -106,6 +106,13 @@ def check_raw(recipe) -> list[Fail]:
             h = hs[hi]
             if name == "open":
                 mode = op[2]
+                if mode == "same":
+                    # open() without a mode: the handle comes back in the mode it had (a creating handle as an appender)
+                    if h.obj is None or h.open:
+                        continue
+                    mode, default_mode = h.mode, True
+                else:
+                    default_mode = False
                 if mode not in ("r", "a"):
                     raise HarnessError(f"bad mode {mode!r}")
                 if h.open:
@@ -117,6 +124,8 @@ def check_raw(recipe) -> list[Fail]:
                 try:
                     if h.obj is None:
                         h.obj = UKVFile(path, mode)
+                    elif default_mode:
+                        h.obj.open()
                     else:
                         h.obj.open(mode)
                 except Exception as e:
@@ -325,9 +334,9 @@ def classify_raw(recipe):
 # exhaustive alphabet: 14 letters over 2 handles
 _EXH = [
     ["close", 0], ["open", 0, "r"], ["open", 0, "a"],
-    ["close", 1], ["open", 1, "r"], ["open", 1, "a"],
+    ["close", 1], ["open", 1, "r"], ["open", 1, "a"], ["open", 0, "same"],
     ["put", 0, 0, 8], ["put", 0, 1, 0], ["put", 0, 4, 1], ["put", 0, 5, 8],
-    ["put", 1, 0, 2], ["put", 1, 1, 8], ["put", 1, 5, 4], ["put", 1, 4, 1],
+    ["put", 1, 0, 2], ["put", 1, 1, 8], ["put", 1, 5, 4], ["put", 1, 4, 1], ["put", 0, 6, 1],
 ]
 
 
@@ -337,7 +346,7 @@ def enum_raw(tier, shard, nshards):
     for n in range(1, L + 1):
         for seq in itertools.product(range(len(_EXH)), repeat=n):
             if i % nshards == shard:
-                yield {"hdr": [0, 0, 0], "create": "x", "ops": [_EXH[j] for j in seq]}
+                yield {"hdr": [0, 0, 0], "create": "xw"[i % 2], "ops": [_EXH[j] for j in seq]}
             i += 1
 
 
@@ -345,7 +354,7 @@ def strat_raw(tier):
     maxlen = 30 if tier == "quick" else 60
     h = st.integers(0, 2)
     op = st.one_of(
-        st.tuples(st.just("open"), h, st.sampled_from(["r", "a"])).map(list),
+        st.tuples(st.just("open"), h, st.sampled_from(["r", "a", "same"])).map(list),
         st.tuples(st.just("close"), h).map(list),
         st.tuples(st.just("put"), h, st.integers(0, len(KEYS) - 1), st.integers(0, len(VALS) - 1)).map(list),
         st.tuples(st.just("put"), h, st.integers(0, len(KEYS) - 1), st.integers(0, 2)).map(list),
@@ -363,7 +372,7 @@ def strat_raw(tier):
 
 # ---------------------------------------------------------------- collection layer
 COMMENTS = ["c02", "", "  indented remark", "two\nlines\n", "\t", "trailing space ", "é\x00"]
-SKEYS = ["a", "b", "é\n", "k" * 255, "K" * 256, "ü" * 128, "c", "d"]
+SKEYS = ["a", "b", "é\n", "k" * 255, "K" * 256, "ü" * 128, "c", "d", ""]
 BUFS = [-1, 0, 64, 10**6]
 
 
@@ -408,9 +417,9 @@ def check_coll(recipe) -> list[Fail]:
                         # a put inside reading() goes to a read-only file handle.  With an unbuffered backend (bufsize -1 / 0) it
                         # is attempted at once and must fail leaving the view unchanged; with a buffer it is merely queued for a
                         # later session, which the statement does not describe: skipped
-                        if ro or coll._backend._bufsize > 0:
-                            continue
                         k, v = SKEYS[op[1]], VALS[op[2]]
+                        if ro or coll._backend._bufsize > 0 or len(k) + len(v) <= coll._backend._bufsize:
+                            continue   # (an empty key with an empty value does not exceed a buffer of 0 bytes: queued, not attempted)
                         try:
                             coll[k] = v
                             fails.append(Fail("coll:put-in-read-session-accepted", f"session {si} op {oi}"))
@@ -584,7 +593,7 @@ LEGS = [
     Leg(
         "raw_exh", check_raw, classify_raw, enumerate=enum_raw, exhaustive=True,
         shards={"quick": 32, "thorough": 64},
-        rule="all op sequences of length<=4 (quick) / <=5 (thorough) over 14 letters {close,open r,open a}x{h0,h1} + 8 puts (dup, 256-byte key, 9 kB values); non-trivial = append-reopen after a put, or two handles with different views, or a failed put; distinct = op-sequence hash",
+        rule="all op sequences of length<=4 (quick) / <=5 (thorough) over 16 letters {close,open r,open a}x{h0,h1} + open() without a mode + 9 puts (dup, 256-byte key, empty key, 9 kB values), file created with mode x or w; non-trivial = append-reopen after a put, or two handles with different views, or a failed put; distinct = op-sequence hash",
     ),
     Leg(
         "raw_rand", check_raw, classify_raw, strategy=strat_raw,
